@@ -77,6 +77,13 @@ def run_check(prop, repo_root, tier="quick", only=None, seed=0, quiet=False, evi
             if f.path:
                 lines.append("    witness: " + " -> ".join(str(p) for p in f.path))
             lines.append(f"VIOLATION property={prop} replay={rp}")
+        for r in getattr(result, "refusals", None) or []:
+            lines.append(f"NOTE property={prop} not analysed: {r}")
+    elif getattr(result, "refusals", None):
+        code = 2
+        status = "analysis-error"
+        for r in result.refusals:
+            lines.append(f"ANALYSIS-ERROR property={prop} {r}")
     elif floor_errors and not only:
         code = 2
         status = "analysis-error"
